@@ -159,4 +159,48 @@ pub open spec fn marshal_str(b: Seq<u8>, interned: bool) -> Seq<u8> {
 /// TYPE_STRING: 's' + byte length + payload
 pub open spec fn marshal_bytes(b: Seq<u8>) -> Seq<u8> { seq![0x73u8] + le32(b.len() as int) + b }
 
+// ---- writer of code objects: the field layout of CPython's marshal.c (w_object, TYPE_CODE) per target version --------------
+/// encodings of the compound fields: written by their own functions (consts_into_bytes, strs_into_bytes, CodeObj::dump_locals),
+/// which are not part of this contract (iterator/closure code) - uninterpreted here, so that only ORDER and PRESENCE are pinned
+pub uninterp spec fn consts_enc(c: Seq<ValueObj>, minor: Option<u8>) -> Seq<u8>;
+pub uninterp spec fn strs_enc(s: Seq<Str>) -> Seq<u8>;
+pub uninterp spec fn locals_enc(varnames: Seq<Str>, freevars: Seq<Str>, cellvars: Seq<Str>, minor: Option<u8>) -> Seq<u8>;
+pub open spec fn minor_ge(minor: Option<u8>, n: u8) -> bool { minor matches Some(m) && m >= n }
+pub open spec fn opt(cond: bool, s: Seq<u8>) -> Seq<u8> { if cond { s } else { Seq::<u8>::empty() } }
+/// marshal.c: 3.7: argcount kwonlyargcount nlocals stacksize flags code consts names varnames freevars cellvars filename name
+/// firstlineno lnotab; 3.8-3.10: + posonlyargcount after argcount; 3.11: nlocals dropped, varnames/freevars/cellvars replaced by
+/// localsplusnames + localspluskinds, + qualname after name, + exceptiontable after the line table
+pub open spec fn layout_a(c: CodeObj, minor: Option<u8>) -> Seq<u8> {
+    seq![0x63u8] + le32(c.argcount as int) + opt(minor_ge(minor, 8), le32(c.posonlyargcount as int))
+}
+pub open spec fn layout_b(c: CodeObj, minor: Option<u8>) -> Seq<u8> {
+    layout_a(c, minor) + le32(c.kwonlyargcount as int) + opt(!minor_ge(minor, 11), le32(c.nlocals as int))
+}
+pub open spec fn layout_c(c: CodeObj, minor: Option<u8>) -> Seq<u8> {
+    layout_b(c, minor) + le32(c.stacksize as int) + le32(c.flags as int) + marshal_bytes(c.code@) + consts_enc(c.consts@, minor) + strs_enc(c.names@)
+}
+pub open spec fn layout_d(c: CodeObj, minor: Option<u8>) -> Seq<u8> {
+    layout_c(c, minor) + locals_enc(c.varnames@, c.freevars@, c.cellvars@, minor) + marshal_str(c.filename.bytes(), false)
+        + marshal_str(c.name.bytes(), true) + opt(minor_ge(minor, 11), marshal_str(c.qualname.bytes(), true))
+}
+pub open spec fn code_layout(c: CodeObj, minor: Option<u8>) -> Seq<u8> {
+    layout_d(c, minor) + le32(c.firstlineno as int) + marshal_bytes(c.lnotab@) + opt(minor_ge(minor, 11), marshal_bytes(c.exceptiontable@))
+}
+// @trusted: ASSUMED CALLEE CONTRACT consts_into_bytes (codeobj.rs: a loop over ValueObj::into_bytes behind a tuple header): its output is what consts_enc names
+#[verifier::external_body]
+fn consts_into_bytes(consts: Vec<ValueObj>, python_ver: PythonVersion) -> (r: Vec<u8>) ensures r@ == consts_enc(consts@, python_ver.minor) { unimplemented!() }
+// @trusted: ASSUMED CALLEE CONTRACT strs_into_bytes (serialize.rs: tuple header + str_into_bytes per element): its output is what strs_enc names
+#[verifier::external_body]
+fn strs_into_bytes(names: Vec<Str>) -> (r: Vec<u8>) ensures r@ == strs_enc(names@) { unimplemented!() }
+impl CodeObj {
+    // @trusted: ASSUMED CALLEE CONTRACT CodeObj::dump_locals (iterator filter/concat: not expressible in Verus): appends what locals_enc names and nothing else
+    #[verifier::external_body]
+    fn dump_locals(varnames: Vec<Str>, freevars: Vec<Str>, cellvars: Vec<Str>, bytes: &mut Vec<u8>, python_ver: PythonVersion)
+        ensures final(bytes)@ == old(bytes)@ + locals_enc(varnames@, freevars@, cellvars@, python_ver.minor)
+    { unimplemented!() }
+}
+// @trusted: vec![x]
+#[verifier::external_body]
+fn w_vec1(x: u8) -> (r: Vec<u8>) ensures r@ == seq![x] { vec![x] }
+
 } // verus!
